@@ -1,0 +1,31 @@
+//go:build verif
+
+package openapi
+
+// Contracts checked by /verif/goavc (comment-only file, built only with -tags verif).
+
+//@ func MustGenerate
+//@   trusted
+//@   modifies nothing
+
+//@ iface goa.design/goa/v3/expr.DataType.Kind
+//@   params t
+
+// The JSON-schema keywords mirror the design's validation keyword for keyword (same numbers, same sense),
+// and a length bound lands on the keyword that applies to the kind of value: minLength/maxLength for
+// strings, minItems/maxItems for arrays. (JSON Schema ignores minLength on arrays and objects.)
+//@ func initAttributeValidation
+//@   property C14
+//@   requires s != nil && at != nil
+//@   let val = old(at.Validation)
+//@   let isArray = typeIs(old(at.Type), *expr.Array)
+//@   let isMap = typeIs(old(at.Type), *expr.Map)
+//@   ensures* none: val == nil ==> s.Enum == old(s.Enum) && s.Format == old(s.Format) && s.Pattern == old(s.Pattern) && s.Minimum == old(s.Minimum) && s.Maximum == old(s.Maximum) && s.MinLength == old(s.MinLength) && s.MaxLength == old(s.MaxLength) && s.MinItems == old(s.MinItems) && s.MaxItems == old(s.MaxItems)
+//@   ensures* enum.format.pattern: val != nil ==> s.Enum == old(val.Values) && s.Pattern == old(val.Pattern) && (old(val.Format) != "" ==> s.Format == old(val.Format))
+//@   ensures* bounds: val != nil ==> (old(val.Minimum) != nil ==> s.Minimum == old(val.Minimum)) && (old(val.Maximum) != nil ==> s.Maximum == old(val.Maximum)) && (old(val.ExclusiveMinimum) != nil ==> s.ExclusiveMinimum == old(val.ExclusiveMinimum)) && (old(val.ExclusiveMaximum) != nil ==> s.ExclusiveMaximum == old(val.ExclusiveMaximum))
+//@   ensures* bounds.not.crossed: val != nil ==> (old(val.Minimum) == nil ==> s.Minimum == old(s.Minimum)) && (old(val.Maximum) == nil ==> s.Maximum == old(s.Maximum)) && (old(val.ExclusiveMinimum) == nil ==> s.ExclusiveMinimum == old(s.ExclusiveMinimum)) && (old(val.ExclusiveMaximum) == nil ==> s.ExclusiveMaximum == old(s.ExclusiveMaximum))
+//@   ensures* length.array: val != nil && isArray ==> (old(val.MinLength) != nil ==> s.MinItems == old(val.MinLength)) && (old(val.MaxLength) != nil ==> s.MaxItems == old(val.MaxLength)) && s.MinLength == old(s.MinLength) && s.MaxLength == old(s.MaxLength)
+//@   ensures* length.string: val != nil && !isArray && !isMap ==> (old(val.MinLength) != nil ==> s.MinLength == old(val.MinLength)) && (old(val.MaxLength) != nil ==> s.MaxLength == old(val.MaxLength)) && s.MinItems == old(s.MinItems) && s.MaxItems == old(s.MaxItems)
+//@   ensures* length.map.applicable: val != nil && isMap ==> s.MinLength == old(s.MinLength) && s.MaxLength == old(s.MaxLength)
+//   -- the required list may be appended in place
+//@   loop 1 modifies elems(string)
